@@ -1241,4 +1241,138 @@ theorem main2 : ∀ e : E, wf e = true → relChain e = false →
     | _ => simp [isArgs] at hw
   | noargs => intro _ _; exact ⟨fun h => by simp [isExprHead] at h, fun h => by simp [isArgs] at h⟩
 
+/-! ### the NoIn family (allowIn as a parameter) for the levels that read it -/
+
+/-- levels 0–9 with the allowIn flag as a parameter; level 10 and above do not read it -/
+def parseAtA (ai : Bool) : Nat → Nat → List Tok → R
+  | 0 => fun n => parseExpression n ai | 1 => fun n => parseAssign n ai | 2 => fun n => parseCond n ai
+  | 3 => fun n => parseLor n ai | 4 => fun n => parseLand n ai | 5 => fun n => parseBor n ai
+  | 6 => fun n => parseBxor n ai | 7 => fun n => parseBand n ai | 8 => fun n => parseEq n ai
+  | 9 => fun n => parseRel n ai | k => parseAt k
+
+/-- with allowIn = false the relational level does not react to `in` -/
+def firesA (ai : Bool) (j : Nat) (t : Tk) (nl : Bool) : Bool :=
+  if j = 9 ∧ ai = false ∧ t = .p .kIn then false else fires j t nl
+
+def stopA (ai : Bool) (lvl : Nat) (ts : List Tok) : Prop := ∀ j, lvl ≤ j → j ≤ 9 → firesA ai j (hd ts) (hdNl ts) = false
+
+theorem parseAtA_loop (ai : Bool) (k : Nat) (hk : isLoopLevel k = true) (hk9 : k ≤ 8) (n : Nat) (ts : List Tok) :
+    parseAtA ai k (n+1) ts = (parseAtA ai (k+1) n ts).bind fun p => binLoop (opsAt k) (parseAtA ai (k+1) n) n p.1 p.2 := by
+  simp [isLoopLevel] at hk
+  rcases hk with (((((((((h|h)|h)|h)|h)|h)|h)|h)|h)|h) <;> subst h <;> (try omega) <;> simp only [parseAtA, opsAt] <;>
+    first
+      | rw [parseExpression] | rw [parseLor] | rw [parseLand] | rw [parseBor] | rw [parseBxor] | rw [parseBand]
+      | rw [parseEq]
+
+theorem descendA1 (ai : Bool) (j : Nat) (hj : j ≤ 9) {ts : List Tok} {e : E} {rest : List Tok}
+    (h : Ev (fun n => parseAtA ai (j+1) n ts) (e, rest)) (hs : firesA ai j (hd rest) (hdNl rest) = false) :
+    Ev (fun n => parseAtA ai j n ts) (e, rest) := by
+  obtain ⟨n0, h⟩ := h
+  refine ⟨n0 + 2, fun n hn => ?_⟩
+  obtain ⟨m, rfl⟩ : ∃ m, n = m+2 := ⟨n-2, by omega⟩
+  have h' := h (m+1) (by omega)
+  dsimp only at h' ⊢
+  have hne9 : ∀ {j'}, j' ≠ 9 → firesA ai j' (hd rest) (hdNl rest) = fires j' (hd rest) (hdNl rest) := by
+    intro j' hj'; simp [firesA, hj']
+  match j, hj with
+  | 1, _ =>
+    simp only [parseAtA] at h' ⊢
+    rw [parseAssign, h']
+    have : asgOps (hd rest) = none := by rw [hne9 (by omega)] at hs; simpa [fires] using hs
+    simp [this]
+  | 2, _ =>
+    simp only [parseAtA] at h' ⊢
+    rw [parseCond, h']
+    have : ¬ hd rest = .p .quest := by rw [hne9 (by omega)] at hs; simpa [fires] using hs
+    simp [this]
+  | 9, _ =>
+    simp only [parseAtA] at h' ⊢
+    have h'' : parseShift (m+1) ts = some (e, rest) := h'
+    rw [parseRel, h'']
+    simp only [Option.bind_some]
+    cases ai
+    · by_cases hin : hd rest = .p .kIn
+      · simp [hin]
+      · simp only [firesA, hin, and_false, if_false, fires] at hs
+        split <;> simp_all [isRelTk]
+    · simp only [firesA, fires] at hs
+      split <;> simp_all [isRelTk]
+  | 0, _ | 3, _ | 4, _ | 5, _ | 6, _ | 7, _ | 8, _ =>
+    rw [parseAtA_loop ai _ rfl (by omega), h']
+    rw [hne9 (by omega)] at hs
+    simp [binLoop, opsAt_none (k := _) rfl hs]
+
+theorem descendA (ai : Bool) (d : Nat) : ∀ (lvl : Nat), lvl + d = 10 → ∀ {ts : List Tok} {e : E} {rest : List Tok},
+    Ev (fun n => parseAt 10 n ts) (e, rest) → stopA ai lvl rest → Ev (fun n => parseAtA ai lvl n ts) (e, rest) := by
+  induction d with
+  | zero => intro lvl h ts e rest hk _; have : lvl = 10 := by omega
+            subst this; exact hk
+  | succ d ih =>
+    intro lvl h ts e rest hk hs
+    have h1 := ih (lvl+1) (by omega) hk (fun j hj hj9 => hs j (by omega) hj9)
+    exact descendA1 ai lvl (by omega) h1 (hs lvl (Nat.le_refl _) (by omega))
+
+
+theorem needParen_noin {lvl : Nat} (h : 10 ≤ lvl) (e : E) : needParen lvl false e = needParen lvl true e := by
+  unfold needParen
+  by_cases h16 : lvl = 16
+  · simp [h16]
+  by_cases h17 : lvl = 17
+  · simp [h17]
+  by_cases h18 : lvl = 18
+  · simp [h18]
+  simp only [h16, h17, h18, if_false]
+  cases hi : isIn e
+  · simp
+  · have : prec e = 9 := by cases e <;> simp [isIn] at hi; rename_i o _ _; cases o <;> simp [isIn] at hi; rfl
+    simp [this]; omega
+
+theorem wrap_noin {lvl : Nat} (h : 10 ≤ lvl) (e : E) (hp : prec e ≤ 15) (ih : 10 ≤ prec e → bare e false = bare e true)
+    (hcat : lvl > 15 → needParen lvl true e = false → prec e = 15) :
+    wrap (needParen lvl false e) (fun a => bare e a) false = wrap (needParen lvl true e) (fun a => bare e a) true := by
+  rw [needParen_noin h]
+  cases hn : needParen lvl true e
+  · simp only [wrap, Bool.false_eq_true, if_false]
+    apply ih
+    by_cases h15 : lvl ≤ 15
+    · rw [needParen_low lvl h15] at hn; simp at hn; omega
+    · have := hcat (by omega) hn; omega
+  · simp [wrap]
+
+theorem np_cat {lvl : Nat} {e : E} (h : lvl > 15) (hl : lvl = 16 ∨ lvl = 17 ∨ lvl = 18) (hn : needParen lvl true e = false) : prec e = 15 := by
+  apply cat_prec
+  intro hx
+  rcases hl with h|h|h <;> subst h <;> simp [needParen, hx] at hn
+
+/-- above the relational level the NoIn derivation and the ordinary one coincide (ES5: only the productions from
+    RelationalExpression down to Expression have a NoIn variant) -/
+theorem bare_noin : ∀ e : E, 10 ≤ prec e → bare e false = bare e true := by
+  intro e
+  induction e with
+  | bin o l r ihl ihr =>
+    intro hp
+    rw [prec_bin] at hp
+    have hb : binPrec o ≤ 12 := by cases o <;> simp [binPrec]
+    simp only [bare]
+    rw [wrap_noin hp l (prec_le l) ihl (fun h => by omega), wrap_noin (by omega) r (prec_le r) ihr (fun h => by omega)]
+  | un o e ih => intro _; simp only [bare]; rw [wrap_noin (by omega) e (prec_le e) ih (fun h => by omega)]
+  | post i e ih => intro _; simp only [bare]; rw [wrap_noin (by omega) e (prec_le e) ih (fun h => by omega)]
+  | cond c a b _ _ _ => intro hp; simp [prec] at hp
+  | asg o l r _ _ => intro hp; simp [prec] at hp
+  | dot e s ih => intro _; simp only [bare]; rw [wrap_noin (by omega) e (prec_le e) ih (fun h hn => np_cat h (by simp) hn)]
+  | idx e i ih _ => intro _; simp only [bare]; rw [wrap_noin (by omega) e (prec_le e) ih (fun h hn => np_cat h (by simp) hn)]
+  | call f a ih _ => intro _; simp only [bare]; rw [wrap_noin (by omega) f (prec_le f) ih (fun h hn => np_cat h (by simp) hn)]
+  | new_ f a ih _ =>
+    intro _
+    cases a <;> simp only [bare] <;>
+      first
+        | rw [wrap_noin (lvl := 17) (by omega) f (prec_le f) ih (fun h hn => np_cat h (by simp) hn)]
+        | rw [wrap_noin (lvl := 18) (by omega) f (prec_le f) ih (fun h hn => np_cat h (by simp) hn)]
+  | _ => intro _; rfl
+
+theorem stopA_in (rest : List Tok) : stopA false 0 (tk .kIn :: rest) := by
+  intro j _ hj9
+  have : j = 0 ∨ j = 1 ∨ j = 2 ∨ j = 3 ∨ j = 4 ∨ j = 5 ∨ j = 6 ∨ j = 7 ∨ j = 8 ∨ j = 9 := by omega
+  rcases this with h|h|h|h|h|h|h|h|h|h <;> subst h <;> (show firesA false _ (.p .kIn) false = false) <;> decide
+
 end OttoVerif.C03.Lem
